@@ -614,6 +614,12 @@ func (e *Exec) evalClauseAt(fr *Frame, cl Clause, st *State, results []Val) *Ter
 			if !ok {
 				e.fail("clause %s: %s - that call was not executed before the clause", cl.Label, p.Name)
 			}
+			if p.Index > 0 { // result_of(k, f, j): component j of a tuple result
+				if p.Index-1 >= len(v.Tup) {
+					e.fail("clause %s: %s - no such result", cl.Label, p.Name)
+				}
+				v = v.Tup[p.Index-1]
+			}
 			args = append(args, v)
 			oldArgs = append(oldArgs, v)
 		case pkRangeIdx:
